@@ -134,6 +134,10 @@ def run(chk):
             data, cons, defs, run_ = big_case(chk.rng) if idx == 3 \
                 else rotation_case(chk.rng) if idx == 5 \
                 else gen_case(chk.rng, idx)
+            if idx == 11:
+                # recorded finding D14 (known_findings.json): shown by every
+                # run, reported as KNOWN-FINDING
+                data = b'\x1f\x8b\n'
             outs = {}
             for vname, gz in variants(chk.rng, data):
                 # the SAME path is rewritten with new content for every case
@@ -259,7 +263,16 @@ def run(chk):
                         o['results'] == ref['results'] and
                         o['stats'] == ref['stats'])
                 if not same:
+                    short_magic = (
+                        data[:2] == b'\x1f\x8b' and len(data) < 10 and
+                        ref['exc'] == 'FileSearchException' and
+                        'Compressed file ended' in (ref.get('exc_msg') or ''))
                     chk.violation(
+                        # the one recorded finding (D14): a PLAIN file that
+                        # begins with the gzip magic and is shorter than a
+                        # gzip header is not searched as plain text
+                        "plain-file-with-gzip-magic-shorter-than-header"
+                        if short_magic else
                         f"{vname}-differs-from-plain "
                         + ("exception" if o['exc'] != ref['exc'] else
                            "results" if o['results'] != ref['results']
